@@ -96,19 +96,14 @@ impl StringPoolBuilder {
                 codepage_id
             ),
         };
+        // Read the rest of the stream up front, so that a failing read is
+        // reported as such; below, running out of bytes can then only mean
+        // that the end of the pool has been reached.
+        let mut entries = Vec::<u8>::new();
+        reader.read_to_end(&mut entries)?;
+        let mut reader: &[u8] = &entries;
         let mut lengths_and_refcounts = Vec::<(u32, u16)>::new();
-        loop {
-            // Only the end of the stream ends the pool; any other read error
-            // must not be mistaken for it.
-            let length = match reader.read_u16::<LittleEndian>() {
-                Ok(length) => length,
-                Err(ref error)
-                    if error.kind() == io::ErrorKind::UnexpectedEof =>
-                {
-                    break;
-                }
-                Err(error) => return Err(error),
-            };
+        while let Ok(length) = reader.read_u16::<LittleEndian>() {
             let mut length = length as u32;
             let mut refcount = reader.read_u16::<LittleEndian>()?;
             if length == 0 && refcount > 0 {
